@@ -198,6 +198,13 @@ class CellSim(object):
 
     def op_rm(self, idx):
         app = self._app(idx)
+        # aim: instances that lost their server outside a cycle and still
+        # hold an identity
+        orphans = [n for n in self.app_order
+                   if self.cell.apps[n].identity is not None and
+                   self.cell.apps[n].server is None]
+        if orphans and idx % 2:
+            app = self.cell.apps[orphans[idx % len(orphans)]]
         if app is None:
             return None
         self.cell.remove_app(app.name)
